@@ -296,4 +296,9 @@ theorem C07_insert_keeps_first :
     AmVerif.Gen.skel_cache_AssetMap_for_AssetMap_insert = [.call .s_get_shard, .acq .s_write 0, .call .s_entry, .call .s_or_insert, .rel 0] ∧
     AmVerif.Gen.skel_local_cache_AssetMap_for_AssetMap_insert = [.acq .s_borrow_mut 0, .call .s_entry, .call .s_or_insert, .rel 0] := ⟨rfl, rfl⟩
 
+/-- Value-level facts of the `hot_reload` handshake that no effect skeleton shows: a caller waits for exactly its own token, the
+reloader publishes only into an empty slot, tokens are distinct, `notify_all` wakes every sleeper; and a request takes in the events
+that were sent before it (the loop is bounded by the length of the EVENT channel). -/
+theorem C07_handshake_values : AmVerif.Gen.answersHandshakeExact = true ∧ AmVerif.Gen.requestTakesPendingEvents = true := by decide
+
 end AmVerif.Props.C07
